@@ -91,7 +91,7 @@ class Writer:
         self.rng = rng
         self.noise = noise
 
-    def dq(self, v):
+    def dq(self, v, literal_nl=True):
         out = []
         for i, ch in enumerate(v):
             if ch == "\\":
@@ -106,15 +106,17 @@ class Writer:
                 next_blank = i + 1 < len(v) and v[i + 1] in " \t"
                 # a literal line break: blanks before it and blanks after it (up to the column of the quote) are
                 # stripped by the lexer, so it is only written between non-blanks; the next line starts in column 0
-                out.append("\n" if not prev_blank and not next_blank and self.rng.random() < 0.5 else "\\n")
+                out.append("\n" if literal_nl and not prev_blank and not next_blank and self.rng.random() < 0.5 else "\\n")
             else:
                 out.append(ch)
         return '"' + "".join(out) + '"'
 
-    def piece(self, v, squote_ok):
-        if squote_ok and "'" not in v and self.rng.random() < 0.4:
+    def piece(self, v, squote_ok, part=False):
+        """part: a piece of a concatenation; there no line break is written literally: libyang's lexer carries the 'after a
+        line break' state over the + and strips the leading blanks of the next piece (seen, not a C10 matter)"""
+        if squote_ok and "'" not in v and self.rng.random() < 0.4 and not (part and "\n" in v):
             return "'" + v + "'"
-        return self.dq(v)
+        return self.dq(v, not part)
 
     def arg(self, v, kw, in_ext=False):
         rng = self.rng
@@ -132,7 +134,7 @@ class Writer:
             # separator never adds a line break inside a piece, so every piece is independent
             # (a comment between a string and the + is not accepted by libyang; RFC 7950 does not say where comments may be)
             seps = [" + ", "+", " +\n      ", "\n  +\n  ", " + /* c */ ", " + // c\n "]
-            return "".join(self.piece(p, squote_ok) + (rng.choice(seps) if i + 1 < len(parts) else "")
+            return "".join(self.piece(p, squote_ok, True) + (rng.choice(seps) if i + 1 < len(parts) else "")
                            for i, p in enumerate(parts))
         return self.piece(v, squote_ok)
 
@@ -438,6 +440,10 @@ def has_mand(st):
     return False
 
 
+BUILTIN_TYPES = {"int8", "int16", "int32", "int64", "uint8", "uint16", "uint32", "uint64", "decimal64", "string", "boolean",
+                 "enumeration", "bits", "binary", "leafref", "identityref", "empty", "union", "instance-identifier"}
+
+
 class TI:
     """a type statement with what the generator has to know about it"""
 
@@ -481,6 +487,7 @@ class ModGen:
         self.feats = []
         self.feat_iff = {}
         self.top_used = set()
+        self.aug_uses_done = False
         self.td_depth = {}
         self.cond_idents = set()
         self.exports = {}         # grouping -> groupings whose nodes a uses of it puts into the namespace of the uses
@@ -795,8 +802,15 @@ class ModGen:
     def typedef(self, tds=()):
         name = self.nm("td")
         # (chains of three typedefs: listed finding typedef-chain-inherit-null of C11, a crash)
-        ti = self.type_any(2, tds=[t for t in tds if self.td_depth.get(t, 1) == 1])
-        self.td_depth[name] = 2 if ti.stmt.arg.split(":")[-1] in self.typedefs else 1
+        for _ in range(20):
+            ti = self.type_any(2, tds=[t for t in tds if self.td_depth.get(t, 1) == 1])
+            base = ti.stmt.arg.split(":")[-1]
+            depth = 1 if ":" not in ti.stmt.arg and base not in self.typedefs else 1 + self.td_depth.get(base, 1)
+            if depth <= 2:
+                break
+        else:
+            ti, depth = self.t_int(), 1
+        self.td_depth[name] = depth
         td = S("typedef", name).add(ti.stmt)
         if ti.kind != "empty" and self.ch(0.4):
             v = ti.value(self.rng)
@@ -961,9 +975,10 @@ class ModGen:
         cands = [k.arg for k in kids if k.kw == "leaf" and k.ti.kind != "empty" and not k.find("when") and
                  not k.find("if-feature") and not k.find("config") and not k.find("status")]
         for k in kids:
-            if k.kw == "container" and not k.find("when") and not k.find("if-feature") and not k.find("config"):
+            if k.kw == "container" and not k.find("when") and not k.find("if-feature") and not k.find("config") and \
+                    not k.find("status"):
                 cands += [k.arg + "/" + x.arg for x in k.subs if x.kw == "leaf" and x.ti.kind != "empty" and
-                          not x.find("when") and not x.find("if-feature") and not x.find("config")]
+                          not x.find("when") and not x.find("if-feature") and not x.find("config") and not x.find("status")]
         li.uniq = set()
         if cands and self.ch(0.4):
             seen = []
@@ -1158,7 +1173,9 @@ class ModGen:
                         # shorthand: the implicit case is part of the path
                         out += self.gnodes([c], p + "/" + c.arg + "/", c.arg == d)
             elif s.kw in ("container", "case"):
-                out += self.gnodes(s.subs, p + "/", in_dflt_case and s.kw == "case" or (in_dflt_case and not s.find("presence")))
+                below = {u.split("/", 1)[1] for u in uniq if u.startswith(s.arg + "/")}
+                out += self.gnodes(s.subs, p + "/", in_dflt_case and s.kw == "case" or (in_dflt_case and not s.find("presence")),
+                                   (), below | {u.split("/")[0] for u in below})
             elif s.kw == "list":
                 ks = s.val("key", "").split()
                 un = {u.split("/")[0] for u in getattr(s, "uniq", ())} | {u for u in getattr(s, "uniq", ())}
@@ -1171,7 +1188,8 @@ class ModGen:
         rf = S("refine", path)
         opts = {}
         iskey = f["key"]
-        if not iskey and not f.get("is_dflt") and not f["dflt_case"]:
+        if not iskey and not f.get("is_dflt") and not f["dflt_case"] and not f["uniq"]:
+            # (nor into a leaf named by a unique statement: dangling pointer in the compiled list as well)
             # (an if-feature refined into the default case of a choice: libyang keeps a dangling pointer to the disabled
             # case and crashes - reported, not a C10 matter)
             opts["if-feature"] = lambda: [S("if-feature", self.iff_expr()) for _ in range(rng.choice([1, 2]))]
@@ -1430,6 +1448,10 @@ class ModGen:
                 ag.add(self.action(ctx))
             if kind == "container" and self.ch(0.2):
                 ag.add(self.notification(ctx, nested=True))
+        if not self.aug_uses_done and kind != "choice" and self.ch(0.4):
+            # (once per module: the nodes of the grouping must not arrive twice in one target)
+            self.aug_uses_done = True
+            ag.add(self.docs(S("uses", self.X + ":xg")))
         rng.shuffle(ag.subs)
         return ag
 
@@ -1629,6 +1651,8 @@ class ModGen:
         """extension instances under every kind of statement"""
         if ":" in st.kw:
             return
+        if st.kw == "belongs-to" and avoid("compiled-print-ext-order"):
+            return      # (the instances under its prefix share the submodule's array: see one_slot below)
         # the compiled extension instances of a submodule's header statements are appended to the module's array after
         # those of the module: the array moves and the storage pointers of md:annotation / sx:structure / rc:yang-data
         # instances dangle (listed finding ext-storage-realloc-dangling)
@@ -1643,6 +1667,10 @@ class ModGen:
         simple = [c for c in st.subs if c.kw in self.SIMPLE]
         own = any(":" in c.kw for c in st.subs)
         slot = None
+        # a node with an instance of an extension that has a plugin (nacm, mount-point) and one without: the tree printer
+        # crashes on the second (the same defect as the listed tree-ext-noplugin-crash, which is recognised for top-level
+        # instances only): no instance without a plugin in such a node
+        plug_node = own and avoid("tree-ext-noplugin-crash-node")
         if one_slot and not own and simple and self.ch(0.7):
             slot = rng.choice(simple)
         for c in list(st.subs):
@@ -1669,9 +1697,9 @@ class ModGen:
             self.decorate(c)
             if ":" in c.kw:
                 continue
-            if one_slot and c.kw in self.SIMPLE and c is not slot:
+            if (one_slot and c.kw in self.SIMPLE and c is not slot) or (plug_node and c.kw in self.SIMPLE):
                 continue
-            if one_slot and not getattr(c, "own_ext_ok", True):
+            if not getattr(c, "own_ext_ok", True):
                 continue
             if self.ch(self.ext_prob * (3 if c is slot else 1)):
                 if c.kw in self.GENERIC_TEXT and avoid("yin-text-ext-order"):
@@ -1680,13 +1708,17 @@ class ModGen:
                     continue
                 if c.kw == "bit" and avoid("bit-ext-dropped"):
                     continue
+                if c.kw == "type" and c.arg.split(":")[-1] not in BUILTIN_TYPES and avoid("type-ext-typedef-assert"):
+                    # (a type that only adds an extension instance to a typedef of a typedef of bits / enumeration:
+                    # assert(base_type_p) in lys_compile_type_ - seen, a crash on a valid module, not a C10 matter)
+                    continue
                 if idx > 0 and c.kw in ("default", "unique", "if-feature", "base") and avoid("yin-ext-substmt-index"):
                     continue
                 if c.kw in self.no_ext_under:
                     continue
                 for _ in range(rng.choice([1, 1, 2])):
                     c.subs.insert(rng.randrange(len(c.subs) + 1), self.ext_instance())
-        st.own_ext_ok = not one_slot or slot is None or not any(":" in x.kw for x in slot.subs)
+        st.own_ext_ok = (not one_slot or slot is None or not any(":" in x.kw for x in slot.subs)) and not plug_node
 
     no_ext_under = set()
 
@@ -1715,12 +1747,16 @@ class ModGen:
         self.docs(imp, 0.3)
         rng.shuffle(imp.subs)
         link.append(imp)
+        if not main and self.sub2 is not None:
+            link.append(self.docs(S("include", self.sub2.arg), 0.3))
         if main:
             link.append(S("import", "ietf-yang-metadata").add(S("prefix", "md")))
             link.append(S("import", "ietf-netconf-acm").add(S("prefix", "nacm")))
             link.append(S("import", "ietf-yang-structure-ext").add(S("prefix", "sx")))
             link.append(S("import", "ietf-restconf").add(S("prefix", "rc")))
             link.append(S("import", "ietf-yang-schema-mount").add(S("prefix", "yangmnt")))
+            if self.subname and self.sub2 is not None:
+                link.append(self.docs(S("include", self.sub2.arg), 0.3))
             if self.subname:
                 inc = S("include", self.subname)
                 if self.ch(0.5):
@@ -1763,9 +1799,8 @@ class ModGen:
             self.P, self.X, self.T, self.M = pf["P"], pf["X"], pf["T"], pf["M"]
             return main if m else sub
 
-        u = unit(True)
         for nm_, a, y in (("e0", None, None), ("e1", "name", rng.choice([None, False])), ("e2", "text", True)):
-            u.add(self.extension(nm_, a, y))
+            unit().add(self.extension(nm_, a, y))
         for _ in range(rng.choice([1, 2, 3])):
             unit().add(self.feature())
         for _ in range(rng.choice([0, 2, 3, 4])):
@@ -1804,6 +1839,14 @@ class ModGen:
             unit().add(self.action(top(), "rpc"))
         for _ in range(rng.choice([0, 1, 2])):
             unit().add(self.notification(top()))
+        # a second submodule, included by the module and by the first submodule
+        self.sub2 = None
+        if sub is not None and self.ch(0.3):
+            unit(False, True)
+            self.sub2 = S("submodule", self.name + "-s2").add(
+                S("yang-version", "1.1"), S("belongs-to", self.name).add(S("prefix", self.P)),
+                S("import", "yme").add(S("prefix", self.X)),
+                self.docs(S("container", self.nm("s2c")).add(self.leaf(Ctx(cfg=True, mand=False, actions=False))), 0.5))
         u = unit()
         u.subs += self.deviations(rng.choice([0, 0, 1, 2, 4]) if systematic != "deviation" else 99, systematic == "deviation")
         # extensions with plugins (main module: it has the imports)
@@ -1836,12 +1879,15 @@ class ModGen:
             rng.shuffle(un.subs)
             self.header(un, un is main)
             self.decorate(un)
-            if self.ch(0.3) and (un is main or not avoid("submodule-toplevel-ext-dropped")) and un.own_ext_ok:
+            if self.ch(0.3) and (un is main or (not avoid("submodule-toplevel-ext-dropped") and
+                                                not (self.has_plugin_ext and avoid("ext-storage-realloc-dangling")))) and un.own_ext_ok:
                 for _ in range(rng.choice([1, 2])):
                     un.subs.insert(rng.randrange(len(un.subs) - 1, len(un.subs) + 1), self.ext_instance())
         out = {self.name: main}
         if sub is not None:
             out[self.subname] = sub
+            if self.sub2 is not None:
+                out[self.sub2.arg] = self.sub2
         return out
 
     REFINABLE = ["if-feature", "must", "presence", "default", "config", "mandatory", "min-elements", "max-elements",
@@ -2043,7 +2089,13 @@ class ModuleRT:
 
     def flatten_cases(self, rng):
         from props import comps_flatten as F
-        mods, f0, alts, model = F.make_sets(rng)
+        # (only the generator of the structured set is used; a fresh PRNG so that work in progress on that slice cannot
+        # shift the stream of this one)
+        sub = __import__("random").Random(rng.random())
+        try:
+            mods = F.SetGen(sub).build()
+        except Exception:       # noqa: the other slice is being edited
+            return []
         defs = [(k, "y", v.text()) for k, v in mods.items()]
         out = []
         for name in ("fa", "fb", "fd"):
@@ -2085,7 +2137,7 @@ class ModuleRT:
         L = []
         L += self.gen_module_cases(rng, "refine", nfeat=1)
         L += self.gen_module_cases(rng, "deviation", nfeat=1)
-        for _ in range(self.n(tier, 70, 4000, scale)):
+        for _ in range(self.n(tier, 300, 4000, scale)):
             L += self.gen_module_cases(rng)
         for _ in range(self.n(tier, 6, 200, scale)):
             L += self.flatten_cases(rng)
@@ -2094,6 +2146,8 @@ class ModuleRT:
         L += self.real_cases(None if tier == "thorough" else
                              {"ietf-origin", "ietf-netconf-acm", "ietf-ip", "ietf-yang-library", "sm-extension", "ietf-restconf",
                               "yang", "ietf-netconf-with-defaults"})
+        if os.environ.get("YMOD_DUMP_LINES"):
+            open(os.environ["YMOD_DUMP_LINES"], "w").write("\n".join(L) + "\n")
         return L
 
     # ---- verdict ----
@@ -2128,16 +2182,21 @@ class ModuleRT:
         for tok in out.split(" "):
             if meta.get("src") and (tok[:3] == "Y0=" or re.match(r"S\d=", tok)):
                 # the statements of the source are the statements of the print
-                name = "ym" if tok[0] == "Y" else "ym-s"
+                name = "?"
                 try:
                     tr = stmts_of_tokens(yang_tokens(unhex(tok[3:]).decode("utf-8")))
-                    d = tree_diff(meta["src"][name], norm_tree(tr[0])) if len(tr) == 1 else "not one statement"
+                    name = tr[0][1] if len(tr) == 1 else "?"
+                    d = tree_diff(meta["src"][name], norm_tree(tr[0])) if name in meta["src"] else "not one known (sub)module"
                 except LexError as e:
                     d = "the print does not lex: %s" % e
                 if d:
                     res.append((None, "src-print (%s): %s" % (name, d)))
                 continue
             if re.match(r"[YXCST]\d=", tok):
+                continue
+            if tok == "" and out.endswith(" "):
+                # (a line that stops after the texts printed for the judge: the driver died, vlib hands the partial line on)
+                res.append((None, "crash: the driver died during the checks (partial answer)"))
                 continue
             if tok == "ok":
                 continue
